@@ -403,7 +403,7 @@ def check_representation(case, ctx: Ctx):
         require(not gapped_exact, "gapped_but_class_forbids", "")
     # numpy_bins
     if want_cons:
-        nb = [float(x) for x in ctx.call("numpy_bins", lambda: b.numpy_bins)]
+        nb = ctx.call("numpy_bins (a 1-D array of edges)", lambda: [float(x) for x in b.numpy_bins])
         require(len(nb) == n + 1 and nb[0] == ps[0][0] and all(nb[i + 1] == ps[i][1] for i in range(n)), "numpy_bins", f"{nb} vs {ps}")
     else:
         ctx.refused("numpy_bins of a gapped binning", lambda: b.numpy_bins)
